@@ -174,11 +174,10 @@ class Tensor:
     def __vt_len__(self):
         if not self.shape:
             raise documented(TypeError("len() of unsized object"))
-        d = self.shape[0]
-        return d if isinstance(d, int) else Sym(d)
+        return self.shape[0]
 
     def __len__(self):
-        d = self.shape[0]
+        d = self._shape[0]
         if isinstance(d, int):
             return d
         raise EngineLimit("len() of tensor with symbolic leading dim (module must shadow len)")
